@@ -138,11 +138,11 @@ theorem notifyWait2_ok {w w' : World} {o : Nat} {s : NotifySt}
 on the object, blocked exactly when the flag is not set -/
 theorem notifyWait1_plain {w : World} {o : Nat} {s : NotifySt}
     (h : w.exec.objs[o]? = some (.notify s)) (hs : (s.spurious && !s.didSpur) = false) :
-    w.notifyWait1 o = (w.branch o .opaque (block := !s.notified)).map (·, 1) := by
+    w.notifyWait1 o = (w.branch o .opaque (block := !s.notified) (wait := !s.notified)).map (·, 1) := by
   unfold World.notifyWait1
   simp only [getNotify_of h, hs, bind, Except.bind, pure, Except.pure, Bool.false_eq_true, if_false]
   rw [setObj_self w o _ h]
-  cases w.branch o .opaque (block := !s.notified) <;> rfl
+  cases w.branch o .opaque (block := !s.notified) (wait := !s.notified) <;> rfl
 
 /-- a spurious return is possible: the path decides (`branch_spurious`) -/
 theorem notifyWait1_maySpur {w : World} {o : Nat} {s : NotifySt}
@@ -153,7 +153,7 @@ theorem notifyWait1_maySpur {w : World} {o : Nat} {s : NotifySt}
       | .ok (p, true) =>
         -- spurious return: `did_spur` is set, the thread yields and `wait` returns
         (((w.setPath p).setObj o (.notify { s with didSpur := true })).yieldNow).map (·, 2)
-      | .ok (p, false) => ((w.setPath p).branch o .opaque (block := !s.notified)).map (·, 1) := by
+      | .ok (p, false) => ((w.setPath p).branch o .opaque (block := !s.notified) (wait := !s.notified)).map (·, 1) := by
   unfold World.notifyWait1
   simp only [getNotify_of h, hs, hd, bind, Except.bind, pure, Except.pure, Bool.not_false,
     Bool.and_self, if_true]
@@ -165,7 +165,7 @@ theorem notifyWait1_maySpur {w : World} {o : Nat} {s : NotifySt}
     · simp only [Bool.false_eq_true, if_false]
       have : (w.setPath p).exec.objs[o]? = some (.notify s) := h
       rw [setObj_self _ o _ this]
-      cases (w.setPath p).branch o .opaque (block := !s.notified) <;> rfl
+      cases (w.setPath p).branch o .opaque (block := !s.notified) (wait := !s.notified) <;> rfl
     · simp only [if_true]
       cases (((w.setPath p).setObj o (.notify { s with didSpur := true })).yieldNow) <;> rfl
 
